@@ -220,6 +220,8 @@ static void *thread_main(void *arg) {
   t->tid = (int)syscall(SYS_gettid);
   switch (t->kind) {
   case K_PARKED:
+    // a thread may carry a GS base of its own (as Wine and some runtimes set): selector stays 0
+    if (t->aux) syscall(SYS_arch_prctl, 0x1001 /* ARCH_SET_GS */, t->aux);
     park_entry(t);
     break;
   case K_SPINNER:
